@@ -1187,6 +1187,9 @@ impl System for Cfg {
     fn impl_fact_names(&self) -> Vec<&'static str> {
         IMPL_FACTS.to_vec()
     }
+    fn replay_of(&self, path: &[Act]) -> Value {
+        schedule_replay(self, path)
+    }
 }
 
 /// Replays a stored connx violation; returns (reproduced?, trace).
